@@ -294,6 +294,9 @@ pub fn spaces(tier: Tier) -> Vec<Box<dyn Space>> {
     // every program of the analysis alphabet (C03) also has to end without a crash
     let c03 = crate::props::c03::programs_for_c06(tier == Tier::Thorough);
     v.push(Box::new(CrashSpace { id: "analysis-alphabet".into(), generator: c03, profile: Profile::Fast, chunk: 4096 }));
+    // what the live part of a block can still reach in the block's unreachable suffix
+    let dead = crate::props::c03::dead_suffix_programs(if tier == Tier::Thorough { 3 } else { 2 });
+    v.push(Box::new(CrashSpace { id: "dead-suffix".into(), generator: dead, profile: Profile::Fast, chunk: 1024 }));
     v
 }
 
